@@ -18,8 +18,14 @@ RULE = ("correspondence: every arrangement of <= N events (reference / top-level
         "(label, number, back-references, body), on the layout of the document's children (in place / collected at the end, order, "
         "transition) and on the ref.footnote warning lines. search: the property clauses evaluated directly on the real doctree. "
         "non-trivial = an arrangement with at least one reference and one definition")
-TRUSTED = ["coq/Refs/Foot.v is a hand transcription of render_footnote_ref/_reference, SortFootnotes, UnreferencedFootnotesDetector, "
-           "CollectFootnotes and of docutils' Footnotes transform / note_* registries (checked by correspondence, not proved)",
+TRUSTED = ["SortFootnotes.apply, UnreferencedFootnotesDetector.apply, CollectFootnotes.apply (transforms.py) and render_footnote_ref / "
+           "render_footnote_reference (base.py) are translated from the source on every run (gen/c11_src.py on gen/c09_pywalk.py -> "
+           "coq/Gen/FootSrc.v) and proved equal to the hand-written model coq/Refs/Foot.v (C11_run_src_is_run, C11_render_src_is_model); "
+           "trusted there: the domain mapping = coq/Refs/FootOps.v + the table in the docstring of gen/c11_src.py (registries -> record "
+           "fields, node['names'] -> the one label, L[0] / L.index(x) only under a syntactic guard, list.sort/sorted -> the stable insertion "
+           "sort, create_warning -> one warning value, footnote.parent.remove + document += -> remove_foot / append on the layout tree, "
+           "try int() except ValueError -> match int_of, document.note_* -> registry updates, the `with current_node_context` block -> rendered "
+           "by the caller) and the walker's control-flow translation; docutils' Footnotes transform / note_* stay a hand transcription",
            "gen/c11_transforms.py (priorities and get_transforms lists -> coq/Gen/Transforms.v)",
            "docutils Transformer applies transforms sorted by (priority, insertion order)",
            "the Markdown parser (markdown-it footnote plugin) turns [^l] / [^l]: into footnote_ref / footnote_reference tokens in document order"]
@@ -36,7 +42,9 @@ LEVEL_TEXT = ("Proof (Coq) over a Gallina transcription of the footnote pipeline
               "C11_referenced_first_partial for any number of references - the 999 constant of the code before 0690b34 is refuted by C11_referenced_first_before_fix_refuted; refuted for sorting off: C11_auto_order_refuted, open finding), numeric labels keep their number "
               "(C11_manual_keeps_number), collection from any nesting depth/ordering/transition (C11_collect_layout, C11_collect_sorted, C11_stay_put; the document is a rose tree), "
               "duplicates and unreferenced definitions warn once (C11_dup_and_unreferenced), no definition text is lost (C11_no_text_lost), "
-              "transform order from the source (C11_transform_order), no fuel exhaustion (C11_total).")
+              "transform order from the source (C11_transform_order), no fuel exhaustion (C11_total). Every run regenerates the Gallina "
+              "definitions of the three MyST transforms and the two renderer methods from the source and re-proves them equal to the model, so "
+              "C11_auto_order_partial_src, C11_referenced_first_src, C11_collect_sorted_src, C11_dup_and_unreferenced_src hold for the code as it is now.")
 LEVEL_NOTE = ("Partial: docutils' Footnotes transform and registries are modelled from the installed source (hypothesis-level trust, exercised by "
               "every correspondence case), markdown-it's footnote tokenisation is an oracle; the theorems are about the model, tied to the code by "
               "differential correspondence. Open finding: with footnote_sort=False auto numbers follow definition order.")
